@@ -1119,7 +1119,7 @@ enum cc_stat cc_array_zip_iter_remove(CC_ArrayZipIter *iter, void **out1, void *
  */
 enum cc_stat cc_array_zip_iter_add(CC_ArrayZipIter *iter, void *e1, void *e2)
 {
-    size_t index = iter->index++;
+    size_t index = iter->index;
     CC_Array  *ar1  = iter->ar1;
     CC_Array  *ar2  = iter->ar2;
 
@@ -1130,6 +1130,7 @@ enum cc_stat cc_array_zip_iter_add(CC_ArrayZipIter *iter, void *e1, void *e2)
 
     cc_array_add_at(ar1, e1, index);
     cc_array_add_at(ar2, e2, index);
+    iter->index++;
 
     return CC_OK;
 }
